@@ -132,6 +132,15 @@ func (fx *FuncCtx) specialCall(st *State, callee *ssa.Function, args []Val, rt t
 	case "(*sync.Mutex).Unlock", "(*sync.RWMutex).Unlock", "(*sync.RWMutex).RUnlock":
 		fx.unlock(st, args[0], pos)
 		return Val{}, true
+	case "fmt.Sprintf":
+		return fx.sprintf(st, args, pos), true
+	case "fmt.Errorf":
+		// a fresh non-nil error whose text is irrelevant here
+		v := fx.freshVal("errorf", rt)
+		fx.assumeTyping(st, v)
+		st.assume(not(eq(v.C[0], "0")))
+		st.assume(not(eq(v.C[1], "0")))
+		return v, true
 	}
 	return Val{}, false
 }
@@ -206,6 +215,25 @@ func (fx *FuncCtx) havocMonitor(st *State, nt *types.Named, md *MonitorDecl, ref
 			fx.heapSet(st, k, sx("store", fx.heapGet(st.heap, k), ref, f))
 		}
 		fx.assumeTyping(st, nv)
+		if mt, ok := ft.Underlying().(*types.Map); ok {
+			// the contents of a guarded map are guarded state too
+			dom, vals, kc, vcs := fx.mapKeys(mt)
+			m := nv.C[0]
+			fx.heapSet(st, dom, sx("store", fx.heapGet(st.heap, dom), m, fx.decls.fresh("hv$"+g+"$dom", "(Array "+kc.sort+" Bool)")))
+			for j, vk := range vals {
+				hv := fx.decls.fresh("hv$"+g+"$val", "(Array "+kc.sort+" "+vcs[j].sort+")")
+				if vcs[j].kind == "ref" {
+					fx.assumeRefArray(st, hv, kc.sort)
+				}
+				fx.heapSet(st, vk, sx("store", fx.heapGet(st.heap, vk), m, hv))
+				st.exempt = append(append([]string(nil), st.exempt...), vk.Key+"|"+m)
+			}
+			lk := HeapKey{"ML$" + sanitize(typeStr(mt)), "(Array Int Int)"}
+			nl := fx.decls.fresh("hv$"+g+"$len", "Int")
+			st.assume(sx(">=", nl, "0"))
+			fx.heapSet(st, lk, sx("store", fx.heapGet(st.heap, lk), m, nl))
+			st.exempt = append(append([]string(nil), st.exempt...), dom.Key+"|"+m, lk.Key+"|"+m)
+		}
 		cls, _ := fx.eng.fieldClass(nt, g)
 		if cls == "owned" {
 			if sl, ok := ft.Underlying().(*types.Slice); ok {
@@ -225,6 +253,40 @@ func (fx *FuncCtx) havocMonitor(st *State, nt *types.Named, md *MonitorDecl, ref
 		k := fx.fieldKey(nt, "ghost$"+gf.Name, cs[0])
 		f := fx.decls.fresh("hv$ghost$"+gf.Name, cs[0].sort)
 		fx.heapSet(st, k, sx("store", fx.heapGet(st.heap, k), ref, f))
+	}
+	// objects owned by the monitor: all their fields may have changed
+	for _, on := range md.Owns {
+		tn, ok := nt.Obj().Pkg().Scope().Lookup(on).(*types.TypeName)
+		if !ok {
+			fx.failf("monitor %s owns unknown type %s", md.Type, on)
+		}
+		ot := tn.Type().(*types.Named)
+		for _, c := range fx.mode.comps(ot) {
+			p, suf := splitSuffix(c.suffix)
+			k := fx.fieldKey(ot, p, comp{suffix: suf, sort: c.sort, kind: c.kind})
+			fx.keySorts[k.Key] = k.Sort
+			st.heap[k.Key] = fx.decls.fresh(k.Key, k.Sort)
+			st.noteWrite(k.Key, "*")
+			// nested maps of owned objects (e.g. a permission set): contents change as well
+			if c.kind == "ref" {
+				if mt, isMap := leafType(ot, c).Underlying().(*types.Map); isMap {
+					dom, vals, _, _ := fx.mapKeys(mt)
+					for _, hk := range append([]HeapKey{dom, {"ML$" + sanitize(typeStr(mt)), "(Array Int Int)"}}, vals...) {
+						fx.keySorts[hk.Key] = hk.Sort
+						st.heap[hk.Key] = fx.decls.fresh(hk.Key, hk.Sort)
+						st.noteWrite(hk.Key, "*")
+						st.exempt = append(append([]string(nil), st.exempt...), hk.Key+"|*")
+					}
+				}
+			}
+		}
+		for _, gf := range fx.eng.ghostFieldsOf(ot) {
+			cs := fx.mode.comps(gf.T)
+			k := fx.fieldKey(ot, "ghost$"+gf.Name, cs[0])
+			fx.keySorts[k.Key] = k.Sort
+			st.heap[k.Key] = fx.decls.fresh(k.Key, k.Sort)
+			st.noteWrite(k.Key, "*")
+		}
 	}
 }
 
@@ -545,6 +607,7 @@ func (fx *FuncCtx) applyContract(st *State, callee *ssa.Function, fc *FuncContra
 	old := copyMap(st.heap)
 	topBefore := st.top()
 	if !fc.Pure {
+		fx.bumpTop(st)
 		fx.havocModifies(st, env, fc)
 		// a public method of a monitor may change the guarded state of its receiver
 		if callee.Signature.Recv() != nil && len(fc.Locked) == 0 && len(args) > 0 {
@@ -560,6 +623,9 @@ func (fx *FuncCtx) applyContract(st *State, callee *ssa.Function, fc *FuncContra
 	}
 	var res Val
 	if rt != nil {
+		if fc.Pure {
+			fx.bumpTop(st) // even an observer may return a freshly allocated object
+		}
 		res = fx.freshVal("r$"+name, rt)
 		fx.assumeTyping(st, res)
 	}
@@ -699,6 +765,9 @@ func (fx *FuncCtx) havocModifies(st *State, env *SpecEnv, fc *FuncContract) {
 				default:
 					inner := innerSort(k.Sort)
 					f := fx.decls.fresh("mod$"+k.Key, inner)
+					if fx.refKeys[k.Key] == 2 {
+						fx.assumeRefArray(st, f, fx.mapKeySort[k.Key])
+					}
 					fx.heapSet(st, k, sx("store", cur, t.ref, f))
 				}
 			}
@@ -785,6 +854,15 @@ func (fx *FuncCtx) frameObligations(st *State, env *SpecEnv, pos token.Pos) {
 		if fx.eng.isMonitorGuardedKey(key) {
 			continue // guarded state of a monitor can change at any time (other goroutines); it is never framed
 		}
+		skip := false
+		for _, ex := range st.exempt {
+			if ex == key+"|*" {
+				skip = true // contents of maps held by monitor-owned objects
+			}
+		}
+		if skip {
+			continue
+		}
 		if strings.HasPrefix(key, "BOX$") || strings.HasPrefix(key, "CH$") || strings.HasPrefix(key, "ML$") || strings.HasPrefix(key, "MD$") || strings.HasPrefix(key, "MV$") {
 			// boxed values / channel and map ghosts: covered by map/chan modifies below
 			if a := allowed[key]; a != nil || strings.HasPrefix(key, "BOX$") {
@@ -838,8 +916,8 @@ func (fx *FuncCtx) frameObligations(st *State, env *SpecEnv, pos token.Pos) {
 			hy = append(hy, not(eq(o, mref)))
 		}
 		goal := eq(sx("select", final, o), sx("select", entry, o))
-		if strings.HasPrefix(key, "A$") {
-			// arrays owned by a monitor are guarded state of that monitor
+		{
+			// arrays / maps owned by a monitor are guarded state of that monitor
 			for _, ex := range st.exempt {
 				if strings.HasPrefix(ex, key+"|") {
 					hy = append(hy, not(eq(o, ex[len(key)+1:])))
@@ -877,6 +955,9 @@ func (fx *FuncCtx) runGhost(st *State, anchor string, env *SpecEnv, pos token.Po
 	for _, gb := range fx.fc.Ghost {
 		if gb.At != anchor {
 			continue
+		}
+		if !fx.ghostInScope(env, gb) {
+			continue // a local named by the block does not exist on this path (the block is anchored on a state where it does)
 		}
 		env.cur = st.heap
 		env.atlock = st.atlock
@@ -1199,3 +1280,124 @@ func (fx *FuncCtx) closureCreated(st *State, in *ssa.MakeClosure, v Val) {
 }
 
 var _ = sort.Strings
+
+// sprintf models fmt.Sprintf(<constant format>, args...) as an uninterpreted function of the format and the
+// argument values (strings, integers, references; slices by their array identity).
+func (fx *FuncCtx) sprintf(st *State, args []Val, pos token.Pos) Val {
+	fs := args[0].s()
+	format := ""
+	for s, n := range fx.decls.strs {
+		if n == fs {
+			format = s
+		}
+	}
+	if format == "" && fs != "str$empty" {
+		r := fx.decls.fresh("sprintf", "Str")
+		fx.trusted["fmt.Sprintf with a non-constant format: result unknown"] = true
+		return Val{T: types.Typ[types.String], C: []string{r}}
+	}
+	var elems []Val
+	if len(args) > 1 {
+		if args[1].Tup == nil && len(args[1].C) == 4 && args[1].C[2] != fx.lenNum(0) && args[1].C[0] != "0" {
+			fx.failf("fmt.Sprintf with an opaque argument slice")
+		}
+		elems = args[1].Tup
+	}
+	var terms, sorts []string
+	for _, e := range elems {
+		o := e
+		if len(e.Bind) == 1 && e.Fn == nil {
+			o = e.Bind[0]
+		}
+		t, s := fx.sprintfArg(o)
+		terms = append(terms, t...)
+		sorts = append(sorts, s...)
+	}
+	name := fx.sprintfName(format, sorts)
+	fx.decls.declareFun(name, sorts, "Str")
+	fx.trusted["fmt.Sprintf(\""+format+"\", ...) as an uninterpreted function of its arguments (axioms about it are listed separately)"] = true
+	if len(terms) == 0 {
+		fx.decls.declare(name+"$c", "Str")
+		return Val{T: types.Typ[types.String], C: []string{name + "$c"}}
+	}
+	return Val{T: types.Typ[types.String], C: []string{sx(name, terms...)}}
+}
+
+func (fx *FuncCtx) sprintfArg(o Val) ([]string, []string) {
+	cs := fx.mode.compsSafe(o.T)
+	if len(cs) == 0 || len(cs) != len(o.C) {
+		return []string{"0"}, []string{"Int"}
+	}
+	switch cs[0].kind {
+	case "str":
+		return []string{o.C[0]}, []string{"Str"}
+	case "bool":
+		return []string{o.C[0]}, []string{"Bool"}
+	}
+	if len(cs) == 2 && cs[0].kind == "tag" {
+		return []string{o.C[1]}, []string{"Int"}
+	}
+	return []string{o.C[0]}, []string{cs[0].sort}
+}
+
+func (fx *FuncCtx) sprintfName(format string, sorts []string) string {
+	id := fx.eng.fmtID(format)
+	sig := ""
+	for _, s := range sorts {
+		switch s {
+		case "Str":
+			sig += "s"
+		case "Int":
+			sig += "i"
+		case "Bool":
+			sig += "b"
+		default:
+			sig += "x"
+		}
+	}
+	return fmt.Sprintf("sprintf$%d$%s", id, sig)
+}
+
+// ghostInScope: every identifier the block mentions resolves on this path
+func (fx *FuncCtx) ghostInScope(env *SpecEnv, gb GhostBlock) (ok bool) {
+	defer func() {
+		if r := recover(); r != nil {
+			if se, isSpec := r.(specErr); isSpec && strings.Contains(se.msg, "unknown identifier") {
+				ok = false
+				return
+			}
+			panic(r)
+		}
+	}()
+	probe := *env
+	var side []string
+	probe.side = &side
+	if gb.When != nil {
+		probe.eval(gb.When)
+	}
+	for _, gs := range gb.Stmts {
+		if gs.Assume != nil {
+			probe.eval(gs.Assume)
+			continue
+		}
+		if gs.BulkVar == "" {
+			probe.eval(gs.RHS)
+			if ix, isIx := gs.LHS.(*EIndex); isIx {
+				probe.eval(ix.I)
+				if sel, isSel := ix.X.(*ESel); isSel {
+					probe.eval(sel.X)
+				}
+			} else if sel, isSel := gs.LHS.(*ESel); isSel {
+				probe.eval(sel.X)
+			}
+		}
+	}
+	return true
+}
+
+// assumeRefArray: every element of a fresh unknown array of references is an allocated object (or nil)
+func (fx *FuncCtx) assumeRefArray(st *State, arr, keySort string) {
+	fx.decls.n++
+	q := fmt.Sprintf("q$ra!%d", fx.decls.n)
+	st.assume("(forall ((" + q + " " + keySort + ")) (! (and (<= 0 " + sx("select", arr, q) + ") (<= " + sx("select", arr, q) + " " + st.top() + ")) :pattern (" + sx("select", arr, q) + ")))")
+}
